@@ -196,7 +196,7 @@ theorem reparse_group (g : Str) (hh : groupOk g = true) :
       intro r hr
       rcases hr with hr | hr
       · rw [hr]; simp [Parsed.url, fmtOpt]
-      · rw [hr]; simp [Parsed.url, fmtOpt]
+      · rw [hr]; simp [Parsed.url]
     rw [this _ (by split <;> simp), joinBase_groups g hg]
   · intro rel
     rw [parse_canonical_slashed _ _ rel hok, parseSplit_slashed _ _ _ _ _ hok]
@@ -224,13 +224,20 @@ theorem segOk_album (aid : Str) (h : aid.all segChar = true) : segOk (aDot ++ ai
     simp [isDotSeg, aDot]
   simp [h1, h2, h3]
 
+theorem albumOf_prefixed (aid : Str) : albumOf (aDot ++ aid) = aid := by
+  unfold albumOf
+  rw [lit_adot]
+  have : startsWith (aDot ++ aid) aDot = true := List.isPrefixOf_iff_prefix.mpr ⟨aid, rfl⟩
+  simp only [this, if_true]
+  rfl
+
 theorem reparse_photo_path (p aid id : Str) (hh : photoPathOk p aid id = true) :
     Reparses (if is_facebook_id p then .photo id none (some p) none (some aid)
               else .photo id none none (some p) (some aid)) := by
   unfold photoPathOk at hh
-  rw [lit_videos_word, lit_adot, contains_eq_hasInfix] at hh
+  rw [lit_videos_word] at hh
   simp only [Bool.and_eq_true, decide_eq_true_eq, Bool.not_eq_true'] at hh
-  obtain ⟨⟨⟨⟨⟨⟨hp, hi⟩, ha⟩, hwp⟩, hwi⟩, hv⟩, hinf⟩ := hh
+  obtain ⟨⟨⟨⟨⟨⟨hp, hi⟩, hane⟩, ha⟩, hwp⟩, hwi⟩, hv⟩ := hh
   have hok : ∀ x ∈ [p, photosL, aDot ++ aid, id], segOk x = true := by
     intro x hx
     simp only [List.mem_cons, List.not_mem_nil, or_false] at hx
@@ -265,12 +272,11 @@ theorem reparse_photo_path (p aid id : Str) (hh : photoPathOk p aid id = true) :
     have e2 : decide (aDot ++ aid = videosL) = false := by simp [aDot, videosL]
     simp only [List.any_cons, List.any_nil, noWatch_spec hwp, noWatch_spec hwi, wfacts.2.2.2.1, w1,
       Bool.or_false, Bool.false_eq_true, if_false, List.dropLast_cons_cons, List.dropLast_singleton, hv,
-      e1, e2, decide_false, decide_true, Bool.false_or, Bool.true_or, Bool.or_true, if_true]
+      e1, e2, decide_false, decide_true, Bool.true_or, Bool.or_true, if_true]
     unfold routePhotos
-    rw [pathsplit_slashed' _ _ hok, lit_adot]
-    have hrep : replace (aDot ++ aid) aDot [] = aid := replace_prefix aDot aid (by decide) hinf
+    rw [pathsplit_slashed' _ _ hok]
     by_cases hid : is_facebook_id p = true <;>
-      simp [getIdx, bind, Except.bind, pure, Except.pure, hid, hrep]
+      simp [getIdx, bind, Except.bind, pure, Except.pure, hid, albumOf_prefixed, hane]
 
 /-! ## urls with a query -/
 
@@ -297,7 +303,7 @@ theorem reparse_user (id : Str) (hh : qvalOk id = true) : Reparses (.user id non
       simp only [Parsed.url]; rw [lit_profile_q]; simp [qsWire, join, wireItem]
     rw [this, joinBase_query profilePhpL _ (by simp) hitems (by decide) (by decide) (by decide) (by decide)]
   · intro rel
-    rw [parse_canonical_query profilePhpL _ rel (by simp) hitems (by decide), parseSplit_profile_php]
+    rw [parse_canonical_query profilePhpL _ rel (by simp) hitems (by decide) (by decide), parseSplit_profile_php]
     unfold routeProfile
     rw [safe_parse_qs_qsWire _ (by simp) hitems, lit_id]
     simp [qsGet, qsHas, qsValues, getIdx, bind, Except.bind, pure, Except.pure]
@@ -313,7 +319,7 @@ theorem reparse_video (id : Str) (hh : qvalOk id = true) : Reparses (.video id n
       simp only [Parsed.url]; rw [lit_watch_q]; simp [qsWire, join, wireItem]
     rw [this, joinBase_query (watchL ++ ['/']) _ (by simp) hitems (by decide) (by decide) (by decide) (by decide)]
   · intro rel
-    rw [parse_canonical_query (watchL ++ ['/']) _ rel (by simp) hitems (by decide), parseSplit_watch]
+    rw [parse_canonical_query (watchL ++ ['/']) _ rel (by simp) hitems (by decide) (by decide), parseSplit_watch]
     unfold routeWatch
     rw [safe_parse_qs_qsWire _ (by simp) hitems, lit_v]
     simp [qsItem, qsHas, qsValues, getIdx, bind, Except.bind, pure, Except.pure]
@@ -333,7 +339,7 @@ theorem reparse_post_parent_id (pid id : Str) (hp : qvalOk pid = true) (hi : qva
       simp only [Parsed.url]; rw [lit_permalink_q, lit_and_id]; simp [qsWire, join, wireItem]
     rw [this, joinBase_query permalinkPhpL _ (by simp) hitems (by decide) (by decide) (by decide) (by decide)]
   · intro rel
-    rw [parse_canonical_query permalinkPhpL _ rel (by simp) hitems (by decide),
+    rw [parse_canonical_query permalinkPhpL _ rel (by simp) hitems (by decide) (by decide),
       parseSplit_permalink_php _ _ _ _ (qsWire_ne_nil _ (by simp))]
     unfold routePermalink
     rw [safe_parse_qs_qsWire _ (by simp) hitems, lit_id, lit_story]
@@ -365,12 +371,13 @@ theorem truthy_of_qvalOk {s : Str} (h : qvalOk s = true) : truthy (some s) = tru
 
 theorem setId_nil (p : Str) : setId [] p = .ok none := rfl
 
-theorem setId_hit (p x : Str) (rest : List Str) (hx : (p ++ x).isEmpty = false) :
+theorem setId_hit (p x : Str) (rest : List Str) (hx : (p ++ x).isEmpty = false) (hxne : x.isEmpty = false) :
     setId ((p ++ x) :: rest) p = .ok (some x) := by
   unfold setId firstWithPrefix
   have : startsWith (p ++ x) p = true := List.isPrefixOf_iff_prefix.mpr ⟨x, rfl⟩
   simp only [List.find?_cons, this, hx, Bool.false_eq_true, if_false, splitStr1_prefix]
-  rfl
+  show Except.ok (orNone x) = _
+  simp [orNone, hxne]
 
 theorem setId_skip (p y : Str) (rest : List Str) (hy : startsWith y p = false) :
     setId (y :: rest) p = setId rest p := by
@@ -413,7 +420,7 @@ theorem reparse_photo_query (id : Str) (gid aid : Option Str) (hh : photoQueryOk
           simp [truthy_of_qvalOk hg, truthy_of_qvalOk ha, photoItems, qsWire, join, wireItem, fmtOpt]
     rw [this, joinBase_query photoPhpL _ hne hitems (by decide) (by decide) (by decide) (by decide)]
   · intro rel
-    rw [parse_canonical_query photoPhpL _ rel hne hitems (by decide),
+    rw [parse_canonical_query photoPhpL _ rel hne hitems (by decide) (by decide),
       parseSplit_photo_php _ _ _ _ (qsWire_ne_nil _ hne)]
     unfold routePhotoQuery photoSets
     rw [safe_parse_qs_qsWire _ hne hitems, lit_fbid, lit_set, lit_gdot, lit_adot]
@@ -424,23 +431,29 @@ theorem reparse_photo_query (id : Str) (gid aid : Option Str) (hh : photoQueryOk
       intro g; simp [aDot, gDot, startsWith, List.isPrefixOf]
     have hge : ∀ g : Str, (gDot ++ g).isEmpty = false := fun _ => rfl
     have hae : ∀ a : Str, (aDot ++ a).isEmpty = false := fun _ => rfl
+    have hne' : ∀ x : Str, qvalOk x = true → x.isEmpty = false := by
+      intro x hx
+      have := (qvalOk_spec hx).1
+      cases x with
+      | nil => exact absurd rfl this
+      | cons c cs => rfl
     have k1 : (setK = fbidK) = False := by simp [setK, fbidK]
     have k2 : (fbidK = setK) = False := by simp [setK, fbidK]
     cases gid with
     | none =>
       cases aid with
       | none =>
-        simp [photoItems, qsItem, qsHas, qsValues, getIdx, bind, Except.bind, pure, Except.pure, k1, k2]
+        simp [photoItems, qsItem, qsHas, qsValues, getIdx, bind, Except.bind, pure, Except.pure, k2]
       | some a =>
         simp [photoItems, qsItem, qsHas, qsValues, getIdx, bind, Except.bind, pure, Except.pure, k1, k2,
-          setId_skip _ _ _ (hag a), setId_nil, setId_hit aDot a [] (hae a)]
+          setId_skip _ _ _ (hag a), setId_nil, setId_hit aDot a [] (hae a) (hne' a ha)]
     | some g =>
       cases aid with
       | none =>
         simp [photoItems, qsItem, qsHas, qsValues, getIdx, bind, Except.bind, pure, Except.pure, k1, k2,
-          setId_skip _ _ _ (hga g), setId_nil, setId_hit gDot g [] (hge g)]
+          setId_skip _ _ _ (hga g), setId_nil, setId_hit gDot g [] (hge g) (hne' g hg)]
       | some a =>
         simp [photoItems, qsItem, qsHas, qsValues, getIdx, bind, Except.bind, pure, Except.pure, k1, k2,
-          setId_skip _ _ _ (hga g), setId_hit aDot a [] (hae a), setId_hit gDot g [aDot ++ a] (hge g)]
+          setId_skip _ _ _ (hga g), setId_hit aDot a [] (hae a) (hne' a ha), setId_hit gDot g [aDot ++ a] (hge g) (hne' g hg)]
 
 end Ural.Facebook
